@@ -69,30 +69,87 @@ theorem client_cert_gate (cert : ClientCert) (cn : String) :
   cases cert <;> simp [handshake] <;> intro h <;> exact h.symm
 
 /-- `tls_gate_history`: in every history of a connection that started without TLS, under a
-TLS-required configuration, a command other than IDENTIFY can change the broker only after an earlier
-IDENTIFY of the same history completed a TLS handshake. -/
+TLS-required configuration, a command other than IDENTIFY can change the broker only if (1) an
+earlier IDENTIFY of the same history completed a TLS handshake, **and** (2) the bytes of that
+command were received by the reader that is current at that moment, which is not the plaintext
+reader (`rd ≠ 0`): they came out of the decrypted stream. Bytes that crossed the wire in the clear
+— even if they were already sitting in the server's buffer when the handshake started — are never
+executed with an effect. -/
 theorem tls_gate_history (E : Ext) (cfg : Config) (M : Matcher) (id : Nat) (b0 : Broker)
     (evs : List Ev) (pre : List Rec) (r : Rec) (post : List Rec)
     (h : trace E cfg M { conn := Conn.fresh id, broker := b0 } evs = pre ++ r :: post)
     (hreq : cfg.tlsRequired ≠ .no)
-    (now : Int) (ans : Request → Option Resp) (cmd : Cmd)
-    (hev : r.ev = .cmd now ans cmd) (hcmd : cmd.isIdentify = false)
+    (rd : Nat) (now : Int) (ans : Request → Option Resp) (cmd : Cmd)
+    (hev : r.ev = .cmd rd now ans cmd) (hcmd : cmd.isIdentify = false)
     (heff : r.res.broker ≠ r.pre.broker) :
-    ∃ q ∈ pre, IsTlsUpgrade cfg q := by
+    (∃ q ∈ pre, IsTlsUpgrade cfg q) ∧ rd = r.pre.conn.rd ∧ rd ≠ 0 := by
   have hm := (trace_mem E cfg M evs _ r (mem_of_split h)).1
-  by_cases ht : r.pre.conn.tls = true
+  rw [hev] at hm
+  rw [hm] at heff
+  obtain ⟨hrd, hst⟩ := stepEv_cmd_effect E cfg M r.pre rd now ans cmd heff
+  rw [hst] at hm heff
+  have ht : r.pre.conn.tls = true := by
+    by_cases ht : r.pre.conn.tls = true
+    · exact ht
+    · exfalso
+      have ht' : r.pre.conn.tls = false := by simpa using ht
+      by_cases hcl : r.pre.conn.closed = true
+      · rw [step_closed _ _ _ _ _ _ _ _ hcl] at heff; exact heff rfl
+      · have hcl' : r.pre.conn.closed = false := by simpa using hcl
+        rw [tls_gate E cfg M ans now _ _ cmd hreq ht' hcl' hcmd] at heff
+        exact heff rfl
+  refine ⟨?_, hrd, ?_⟩
   · rcases trace_tls E cfg M evs _ pre r post h ht with h0 | h0
     · simp [Conn.fresh] at h0
     · exact h0
-  · exfalso
-    have ht' : r.pre.conn.tls = false := by simpa using ht
-    rw [hev] at hm
-    simp only [stepEv] at hm
+  · rw [hrd]
+    exact trace_flag_reader E cfg M evs _ pre r post h (by simp [Conn.fresh]) ht
+
+/-- `plaintext_bytes_never_executed`: with TLS required, a command line (other than IDENTIFY) whose
+bytes were received in the clear (`rd = 0`: before any handshake, whenever it is that the server
+gets round to them) has no effect on the broker and is never answered with success: it is either
+answered by the fatal `E_INVALID` of the TLS gate, or — if a handshake has replaced the reader in
+the meantime, or the connection is gone — it is not answered at all: the plaintext reader's
+leftover buffer is discarded, not replayed into the TLS session. -/
+theorem plaintext_bytes_never_executed (E : Ext) (cfg : Config) (M : Matcher) (id : Nat) (b0 : Broker)
+    (evs : List Ev) (pre : List Rec) (r : Rec) (post : List Rec)
+    (h : trace E cfg M { conn := Conn.fresh id, broker := b0 } evs = pre ++ r :: post)
+    (hreq : cfg.tlsRequired ≠ .no)
+    (now : Int) (ans : Request → Option Resp) (cmd : Cmd)
+    (hev : r.ev = .cmd 0 now ans cmd) (hcmd : cmd.isIdentify = false) :
+    r.res.broker = r.pre.broker ∧ r.res.conn = r.pre.conn ∧ r.res.query = none ∧
+    (r.res.replies = [] ∨ r.res.replies = [.err "E_INVALID" true]) := by
+  have hm := (trace_mem E cfg M evs _ r (mem_of_split h)).1
+  rw [hev] at hm
+  simp only [stepEv] at hm
+  by_cases hrd : 0 = r.pre.conn.rd
+  · simp only [hrd, if_true] at hm
+    have ht : r.pre.conn.tls = false := by
+      by_cases ht : r.pre.conn.tls = true
+      · exact absurd hrd.symm (trace_flag_reader E cfg M evs _ pre r post h (by simp [Conn.fresh]) ht)
+      · simpa using ht
     by_cases hcl : r.pre.conn.closed = true
-    · rw [step_closed _ _ _ _ _ _ _ _ hcl] at hm; rw [hm] at heff; exact heff rfl
+    · rw [step_closed _ _ _ _ _ _ _ _ hcl] at hm; rw [hm]; simp
     · have hcl' : r.pre.conn.closed = false := by simpa using hcl
-      rw [tls_gate E cfg M ans now _ _ cmd hreq ht' hcl' hcmd] at hm
-      rw [hm] at heff; exact heff rfl
+      rw [tls_gate E cfg M ans now _ _ cmd hreq ht hcl' hcmd] at hm
+      rw [hm]; simp
+  · simp only [hrd, if_false] at hm
+    rw [hm]; simp
+
+/-- the injection attempt: `PUB` sent in the clear right behind the TLS-negotiating IDENTIFY (it is
+in the plaintext reader's buffer when the handshake runs), then a legitimate `PUB` inside TLS:
+the injected one is dropped — no reply, no topic —, the legitimate one is executed. -/
+example :
+    ((trace exE (exCfg .yes .none false) exM { conn := Conn.fresh 3, broker := [] }
+      [.cmd 0 0 exDown (exIdentify .noCert),
+       .cmd 0 0 exDown (.pub ["injected"] 3),
+       .cmd 1 0 exDown (.pub ["legit"] 3)]).map (fun r => (r.res.replies, r.post.broker.map (·.name)))) =
+    [([.identify true false, .ok], []), ([], []), ([.ok], ["legit"])] := by decide
+/-- without the upgrade the same plaintext line is read next and refused by the gate -/
+example :
+    ((trace exE (exCfg .yes .none false) exM { conn := Conn.fresh 3, broker := [] }
+      [.cmd 0 0 exDown (.pub ["injected"] 3)]).map (fun r => r.res.replies)) =
+    [[.err "E_INVALID" true]] := by decide
 
 /-- `http_tls_gate`: a request on the plaintext HTTP listener is refused with 403 exactly when
 `tls-required` is `true` (not for `tcp-https`); the TLS listener never refuses on these grounds. -/
@@ -174,15 +231,15 @@ theorem auth_gate_history (E : Ext) (cfg : Config) (M : Matcher) (id : Nat) (b0 
     (evs : List Ev) (pre : List Rec) (r : Rec) (post : List Rec)
     (h : trace E cfg M { conn := Conn.fresh id, broker := b0 } evs = pre ++ r :: post)
     (hauth : cfg.authEnabled = true)
-    (now : Int) (ans : Request → Option Resp) (cmd : Cmd)
-    (hev : r.ev = .cmd now ans cmd) (hg : cmd.isGated = true)
+    (rd : Nat) (now : Int) (ans : Request → Option Resp) (cmd : Cmd)
+    (hev : r.ev = .cmd rd now ans cmd) (hg : cmd.isGated = true)
     (heff : r.res.broker ≠ r.pre.broker) :
     (∃ q ∈ pre, IsAuthSuccess q) ∧
     ∃ g, inForce M ans now r.pre.conn = some g ∧ isAllowed M (subject cmd).1 (subject cmd).2 g = true := by
   have hm := (trace_mem E cfg M evs _ r (mem_of_split h)).1
   rw [hev] at hm
-  simp only [stepEv] at hm
   rw [hm] at heff
+  rw [(stepEv_cmd_effect E cfg M r.pre rd now ans cmd heff).2] at heff
   obtain ⟨ha, hg'⟩ := auth_gate E cfg M ans now _ _ cmd hg hauth heff
   refine ⟨?_, hg'⟩
   rcases trace_hasAuth E cfg M evs _ pre r post h ha with h0 | h0
@@ -438,26 +495,28 @@ that history; and with TLS required, not before a completed TLS handshake either
 theorem no_effect_before_auth (E : Ext) (cfg : Config) (M : Matcher) (id : Nat) (b0 : Broker)
     (evs : List Ev) (pre : List Rec) (r : Rec) (post : List Rec)
     (h : trace E cfg M { conn := Conn.fresh id, broker := b0 } evs = pre ++ r :: post)
-    (now : Int) (ans : Request → Option Resp) (cmd : Cmd)
-    (hev : r.ev = .cmd now ans cmd) (heff : r.res.broker ≠ r.pre.broker) :
+    (rd : Nat) (now : Int) (ans : Request → Option Resp) (cmd : Cmd)
+    (hev : r.ev = .cmd rd now ans cmd) (heff : r.res.broker ≠ r.pre.broker) :
     (cfg.authEnabled = true → ∃ q ∈ pre, IsAuthSuccess q) ∧
     (cfg.tlsRequired ≠ .no → ∃ q ∈ pre, IsTlsUpgrade cfg q) := by
   have hm := (trace_mem E cfg M evs _ r (mem_of_split h)).1
+  have hm' := hm
+  rw [hev] at hm'
+  have heff' := heff
+  rw [hm'] at heff'
+  rw [(stepEv_cmd_effect E cfg M r.pre rd now ans cmd heff').2] at hm'
   have hni : cmd.isIdentify = false := by
     cases cmd with
     | identify d =>
       exfalso
-      rw [hev] at hm; simp only [stepEv] at hm
-      rw [hm, identify_no_broker_effect] at heff; exact heff rfl
+      rw [hm', identify_no_broker_effect] at heff; exact heff rfl
     | _ => rfl
-  refine ⟨?_, fun hreq => tls_gate_history E cfg M id b0 evs pre r post h hreq now ans cmd hev hni heff⟩
+  refine ⟨?_, fun hreq => (tls_gate_history E cfg M id b0 evs pre r post h hreq rd now ans cmd hev hni heff).1⟩
   intro hauth
   by_cases hg : cmd.isGated = true
-  · exact (auth_gate_history E cfg M id b0 evs pre r post h hauth now ans cmd hev hg heff).1
+  · exact (auth_gate_history E cfg M id b0 evs pre r post h hauth rd now ans cmd hev hg heff).1
   have hg' : cmd.isGated = false := by simpa using hg
   -- not gated: only FIN / REQ / TOUCH can change the broker, and only on a subscribed connection
-  have hm' := hm
-  rw [hev] at hm'; simp only [stepEv] at hm'
   have hstate : r.pre.conn.state ≠ .init := by
     by_cases hcl : r.pre.conn.closed = true
     · rw [step_closed _ _ _ _ _ _ _ _ hcl] at hm'; rw [hm'] at heff; exact absurd rfl heff
@@ -473,14 +532,18 @@ theorem no_effect_before_auth (E : Ext) (cfg : Config) (M : Matcher) (id : Nat) 
     · have hch' : Cmd.isChanCmd cmd = false := by simpa using hch
       rw [hm', dispatch_broker_other E cfg M ans now _ _ cmd hg' hch'] at heff; exact absurd rfl heff
   -- so a SUB was accepted earlier; at that moment the connection held authorizations
-  rcases trace_state E cfg M evs _ pre r post h hstate with h0 | ⟨q, hq, now', ans', args, hqe, hqr⟩
+  rcases trace_state E cfg M evs _ pre r post h hstate with h0 | ⟨q, hq, rd', now', ans', args, hqe, hqr⟩
   · simp [Conn.fresh] at h0
   obtain ⟨pre1, post1, hsplit⟩ := List.append_of_mem hq
   have h' : trace E cfg M { conn := Conn.fresh id, broker := b0 } evs = pre1 ++ q :: (post1 ++ r :: post) := by
     rw [h, hsplit]; simp
   have hqm := (trace_mem E cfg M evs _ q (mem_of_split h')).1
   rw [hqe] at hqm; simp only [stepEv] at hqm
-  rw [hqm] at hqr
+  have hqs : q.res = step E cfg M ans' now' q.pre.conn q.pre.broker (.sub args) := by
+    by_cases hq' : rd' = q.pre.conn.rd
+    · simpa [hq'] using hqm
+    · simp only [hq', if_false] at hqm; rw [hqm] at hqr; simp at hqr
+  rw [hqs] at hqr
   have hha := sub_success_hasAuth E cfg M ans' now' _ _ args hauth hqr
   rcases trace_hasAuth E cfg M evs _ pre1 q (post1 ++ r :: post) h' hha with h0 | ⟨a, ha, hA⟩
   · simp [Conn.fresh, hasAuthorizations] at h0
@@ -514,11 +577,11 @@ another connection), then IDENTIFY+TLS, a publish refused before AUTH would clos
 AUTH, an allowed publish, an allowed subscribe. The broker holds exactly what was allowed. -/
 example :
     ((trace exE (exCfg .yes .none true) exM { conn := Conn.fresh 3, broker := [] }
-      [.cmd 0 exDown (exIdentify .noCert),
-       .cmd 0 (exAns 10 exGrants) (.auth [] 1 "s"),
-       .cmd 5 exDown (.pub ["orders"] 3),
+      [.cmd 0 0 exDown (exIdentify .noCert),
+       .cmd 1 0 (exAns 10 exGrants) (.auth [] 1 "s"),
+       .cmd 1 5 exDown (.pub ["orders"] 3),
        .env [{ name := "orders", msgs := [{ size := 3, deferNs := 0 }], chans := [] }],
-       .cmd 20 (exAns 10 exGrants) (.sub ["orders", "c0"])]).map (fun r => r.res.replies)) =
+       .cmd 1 20 (exAns 10 exGrants) (.sub ["orders", "c0"])]).map (fun r => r.res.replies)) =
     [[.identify true true, .ok], [.auth "bob" "" 2], [.ok], [], [.ok]] := by decide
 
 end Nsq.Props.C11
